@@ -27,7 +27,7 @@ ANCHORS = [("leuvenmapmatching/matcher/base.py", "BaseMatching.next"),
            ("leuvenmapmatching/util/dist_latlon.py", "distance_segment_to_segment"),
            ("leuvenmapmatching/util/dist_latlon.py", "box_around_point"),
            ("leuvenmapmatching/util/segment.py", "Segment")]
-CELLS = [f"cell:{f}:{m}:{'ne' if n else 'e'}" for f in gen.FAMILIES for m in ("planar", "latlon") for n in (False, True)]
+CELLS = [f"cell:{f}:{m}:{'ne' if n else 'e'}" for f in gen.FAMILIES_ALL for m in ("planar", "latlon") for n in (False, True)]
 FLOORS = {c: 60 for c in CELLS}
 FLOORS.update({"pairs_runs": 2500, "triples_runs": 2500, "zero_distance_observations": 1500, "latlon_without_cutoff": 250,
                "zero_length_road_maps": 150, "repeated_observation_traces": 200, "nonempty_matches": 1500})
@@ -37,7 +37,7 @@ ASSUMPTIONS = ["valid input = finite coordinates, non-empty trace, positive nois
 
 def gen_case(rng, i, tier):
     latlon = rng.random() < 0.45
-    case = mcase.gen_mcase(rng, width="maybe", tighten_p=0.15, sparse_p=0.25, max_obs=8,
+    case = mcase.gen_mcase(rng, families=gen.FAMILIES_ALL, width="maybe", tighten_p=0.15, sparse_p=0.25, max_obs=8,
                            kinds=("random", "grid", "grid", "chain", "chain_dyadic"))
     m, tr = case["map"], case["trace"]
     c = gen.coords(m)
